@@ -101,7 +101,8 @@ impl Frame {
                 let len = get_integer(reader)?;
                 let len = len.try_into().map_err(|_| Error::BadEncoding)?;
                 // Recursively parse each element of the array
-                let mut items = Vec::with_capacity(len);
+                // every element takes at least one byte, never reserve more than the input can hold
+                let mut items = Vec::with_capacity(std::cmp::min(len, reader.remaining()));
                 for _ in 0..len {
                     items.push(Frame::parse(reader)?);
                 }
